@@ -254,12 +254,17 @@ def rand_netlist(rng, n_in=3, n_items=4, depth=2, names=None, bb=0, exprs_in_gat
     inputs = [nm("a") for _ in range(n_in)]
     avail = list(inputs)
     wires, items, bbs = [], [], {}
+    # blackbox TYPES: the same type name is given different pins in different netlists (definitions must not be
+    # remembered from one parse to the next), and a type may be named like a primitive in another case (BUF, Nand)
+    variant = rng.random()
+    tn0 = "flop" if variant < 0.8 else rng.choice(["BUF", "Nand", "XOR", "Not"])
+    pins0 = [["d", "ck"], ["q"]] if variant < 0.5 else ([["d", "ck", "en"], ["q"]] if variant < 0.65 else [["a"], ["q", "qn"]])
     for k in range(bb):
-        bbname = "flop" if k % 2 == 0 else "cell2"
-        bbs[bbname] = [["d", "ck"], ["q"]] if bbname == "flop" else [["i0"], ["o0", "o1"]]
+        bbname = tn0 if k % 2 == 0 else "cell2"
+        bbs[bbname] = pins0 if bbname == tn0 else [["i0"], ["o0", "o1"]]
     made_bb = []
     for k in range(bb):
-        bbname = "flop" if k % 2 == 0 else "cell2"
+        bbname = tn0 if k % 2 == 0 else "cell2"
         inst = nm("u")
         conns = {}
         for p in bbs[bbname][1]:
